@@ -88,6 +88,43 @@ fn main() {
     println!("{}", fc::dump(&p.graph));
     return;
   }
+  if args[0] == "fuzzseed" {
+    // seed corpus of the fuzz target fz_analyze: every module source of the
+    // spec corpus, prefixed with the byte that selects its media type
+    let dir = std::path::Path::new(&args[1]);
+    std::fs::create_dir_all(dir).unwrap();
+    let mut n = 0;
+    for (_, name, src) in props::c08::corpus_sources() {
+      let ext_byte: u8 = if name.ends_with(".d.ts") {
+        4
+      } else if name.ends_with(".d.mts") {
+        7
+      } else if name.ends_with(".tsx") {
+        1
+      } else if name.ends_with(".jsx") {
+        3
+      } else if name.ends_with(".mjs") {
+        5
+      } else if name.ends_with(".mts") {
+        6
+      } else if name.ends_with(".js") {
+        2
+      } else if name.ends_with(".ts") {
+        0
+      } else {
+        continue;
+      };
+      if src.len() > 12_000 || src.starts_with("HEADERS:") {
+        continue;
+      }
+      let mut bytes = vec![ext_byte];
+      bytes.extend_from_slice(src.as_bytes());
+      std::fs::write(dir.join(format!("seed{n:04}")), bytes).unwrap();
+      n += 1;
+    }
+    println!("{n} seed inputs written to {}", dir.display());
+    return;
+  }
   if args[0] == "c12rec" {
     let text = std::fs::read_to_string(&args[1]).unwrap();
     let case: props::c12::Case = serde_json::from_str(&text).unwrap();
